@@ -30,4 +30,52 @@ theorem working_files_distinct (t u : SyncTask) (ht : GenTempFile.ProperName t.d
     SyModel.Generated.TempFile.working_file_path t.dest_path ≠ SyModel.Generated.TempFile.working_file_path u.dest_path :=
   fun h => hne (GenTempFile.working_file_path_injective _ _ ht hu h)
 
+/-- the converse — **nothing else is moved**: a planned deletion whose path is not `<dest>.sy.tmp` of any planned create / update is
+    handed out AFTER the barrier, beside the transfers (so the barrier costs an ordinary `--delete` run no parallelism, and the
+    children of a stale directory are removed beside the updates: the schedule in which repair d5ee1fe's ENOTDIR arises) -/
+theorem ordinary_deletion_after_barrier {W : Type} (tasks deletions : List SyncTask) (replaced : List Rs.Path) (w : W)
+    (hone : (tasks.filter (GenEngineOrder.isRepl replaced)).length = replaced.length)
+    (hproper : ∀ t ∈ tasks, GenEngineOrder.isTransfer t = true → GenTempFile.ProperName t.dest_path)
+    (d : SyncTask) (hd : d ∈ deletions)
+    (hno : ∀ t ∈ tasks, GenEngineOrder.isTransfer t = true → d.dest_path ≠ t.dest_path ++ GenTempFile.sfx) :
+    ∃ ts m, GenEngineOrder.runM (GenEngineOrder.finalOrder (realExt W) tasks deletions replaced) w = (.ok (ts, m), w) ∧ d ∈ ts.drop m := by
+  obtain ⟨ts, m, h, _, hdrop⟩ := GenEngineOrder.barrier_prefix (realExt W) tasks deletions replaced w hone
+  refine ⟨ts, m, h, ?_⟩
+  rw [hdrop]
+  apply List.mem_append_right
+  rw [List.mem_filter]
+  refine ⟨hd, ?_⟩
+  have : GenEngineOrder.atWorkingFile (realExt W).temp_file_working_file_path tasks d = false := by
+    rw [Bool.eq_false_iff]
+    intro hc
+    unfold GenEngineOrder.atWorkingFile GenEngineOrder.workingFiles at hc
+    rw [List.contains_iff_mem] at hc
+    obtain ⟨t, ht, he⟩ := List.mem_map.mp hc
+    obtain ⟨ht1, ht2⟩ := List.mem_filter.mp ht
+    have e : SyModel.Generated.TempFile.working_file_path t.dest_path = d.dest_path := he
+    rw [GenTempFile.working_file_path_eq _ (hproper t ht1 ht2)] at e
+    exact hno t ht1 ht2 e.symm
+  simp [this]
+
+/-- a deletion is before the barrier on working-file grounds **iff** its path is `<dest>.sy.tmp` of a planned create / update -/
+theorem at_working_file_iff (tasks : List SyncTask)
+    (hproper : ∀ t ∈ tasks, GenEngineOrder.isTransfer t = true → GenTempFile.ProperName t.dest_path) (d : SyncTask) :
+    GenEngineOrder.atWorkingFile SyModel.Generated.TempFile.working_file_path tasks d = true ↔
+      ∃ t ∈ tasks, GenEngineOrder.isTransfer t = true ∧ d.dest_path = t.dest_path ++ GenTempFile.sfx := by
+  unfold GenEngineOrder.atWorkingFile GenEngineOrder.workingFiles
+  rw [List.contains_iff_mem, List.mem_map]
+  constructor
+  · rintro ⟨t, ht, he⟩
+    obtain ⟨ht1, ht2⟩ := List.mem_filter.mp ht
+    rw [GenTempFile.working_file_path_eq _ (hproper t ht1 ht2)] at he
+    exact ⟨t, ht1, ht2, he.symm⟩
+  · rintro ⟨t, ht1, ht2, he⟩
+    refine ⟨t, List.mem_filter.mpr ⟨ht1, ht2⟩, ?_⟩
+    rw [GenTempFile.working_file_path_eq _ (hproper t ht1 ht2)]
+    exact he.symm
+
+/-- non-vacuity: the example plan of `GenEngineOrder` (`big` updated, `big.sy.tmp` / `o` / `z` deleted) meets the hypotheses for `o` -/
+example : ∀ t ∈ GenEngineOrder.Example.tasks, GenEngineOrder.isTransfer t = true →
+    (GenEngineOrder.Example.mk ['o'] .Delete).dest_path ≠ t.dest_path ++ GenTempFile.sfx := by decide
+
 end SyModel.Props.GenEngineOrderTemp
